@@ -108,8 +108,9 @@ type Collected struct {
 	Visits []refsel.Visit
 	Loads  []string
 	Err    error
-	// Nodes keeps the visited nodes themselves (C11/C14 re-read them)
+	// Nodes keeps the visited nodes themselves (C11/C14 re-read them), Paths their path objects
 	Nodes []datamodel.Node
+	Paths []datamodel.Path
 }
 
 // WalkAdv runs Progress.WalkAdv and collects (path, reason, value) of every callback.
@@ -129,6 +130,7 @@ func WalkAdv(r *graph.Real, prog traversal.Progress, s selector.Selector) (c Col
 		}
 		c.Visits = append(c.Visits, refsel.Visit{Path: p.Path.String(), Reason: string(rune(reason)), Value: v})
 		c.Nodes = append(c.Nodes, n)
+		c.Paths = append(c.Paths, p.Path)
 		return nil
 	})
 	c.Err = err
@@ -155,6 +157,7 @@ func WalkMatching(r *graph.Real, prog traversal.Progress, s selector.Selector) (
 		}
 		c.Visits = append(c.Visits, refsel.Visit{Path: p.Path.String(), Reason: "m", Value: v})
 		c.Nodes = append(c.Nodes, n)
+		c.Paths = append(c.Paths, p.Path)
 		return nil
 	})
 	c.Err = err
